@@ -133,6 +133,47 @@ func c17sm2Scenarios() []*sched.Scenario {
 			return [][]sched.Op{{{"SignHashed(short r)", signz}, {"VerifyHashed(short t)", verifyz}}, {{"VerifyHashed(short t)", verifyz}, {"SignHashed", sign(k2)}}, {{"SignHashed", sign(k1)}, {"SignHashed(short r)", signz}}}
 		}})
 	}
+	// S7: valid signatures whose t = r+s (the multiplier of the public key) or s (the multiplier of G) is tiny - 1, 3,
+	// 2^13, or n-1 for s: the double multiplication then meets its tables with an empty accumulator and takes the
+	// start-up branches (seeded C17-N: a table point aliased to a package-level constant becomes the accumulator there)
+	{
+		dI := bi(d)
+		type sig struct{ e, r, s []byte }
+		mk := func(tv, sv *big.Int) sig {
+			rv := modN(new(big.Int).Sub(tv, sv))
+			_, ez, ok := c17solve(rv, sv, dI)
+			if !ok {
+				panic("harness: cannot solve the tiny-multiplier signature")
+			}
+			if v, why := sm2ref.Verify(px, py, b32(ez), b32(rv), b32(sv)); !v {
+				panic("harness: tiny-multiplier signature is not valid: " + why)
+			}
+			return sig{b32(ez), b32(rv), b32(sv)}
+		}
+		rnd := modN(bi(vx.Fill("c17tiny-s", 32)))
+		sigs := []sig{mk(big.NewInt(1), rnd), mk(big.NewInt(3), rnd), mk(big.NewInt(1<<13), rnd),
+			mk(modN(bi(vx.Fill("c17tiny-t", 32))), big.NewInt(1)), mk(modN(bi(vx.Fill("c17tiny-t", 32))), new(big.Int).Sub(bigN, bigOne))}
+		out = append(out, &sched.Scenario{Name: "S7-tiny-multipliers", Build: func(x *sched.Exec) [][]sched.Op {
+			dd, ee, pxx, pyy, r, s := append([]byte{}, d...), append([]byte{}, e...), append([]byte{}, px...), append([]byte{}, py...), append([]byte{}, sg.R...), append([]byte{}, sg.S...)
+			for n, b := range map[string][]byte{"priv": dd, "digest": ee, "pubx": pxx, "puby": pyy, "r": r, "s": s} {
+				share(x, n, b)
+			}
+			vt := func(i int) func() string {
+				g := sig{append([]byte{}, sigs[i].e...), append([]byte{}, sigs[i].r...), append([]byte{}, sigs[i].s...)}
+				share(x, fmt.Sprintf("tiny%d-e", i), g.e)
+				share(x, fmt.Sprintf("tiny%d-r", i), g.r)
+				share(x, fmt.Sprintf("tiny%d-s", i), g.s)
+				return func() string { ok, err := sm2.VerifyHashed(pxx, pyy, g.e, g.r, g.s); return fmt.Sprint(ok, err) }
+			}
+			verify := func() string { ok, err := sm2.VerifyHashed(pxx, pyy, ee, r, s); return fmt.Sprint(ok, err) }
+			derive := func() string { a, b, err := sm2.DerivePublic(dd); return fmt.Sprintf("%x %x %v", a, b, err) }
+			sign := func() string {
+				a, b, err := sm2.SignHashed(stream(k2), dd, ee)
+				return fmt.Sprintf("%x %x %v", a, b, err)
+			}
+			return [][]sched.Op{{{"VerifyHashed(t=1)", vt(0)}, {"VerifyHashed(s=1)", vt(3)}, {"VerifyHashed", verify}}, {{"VerifyHashed", verify}, {"VerifyHashed(t=3)", vt(1)}, {"DerivePublic", derive}}, {{"VerifyHashed(t=2^13)", vt(2)}, {"SignHashed", sign}, {"VerifyHashed(s=n-1)", vt(4)}}}
+		}})
+	}
 	return out
 }
 
